@@ -25,10 +25,10 @@ pub static DEF: CheckDef = CheckDef {
     generate,
     execute,
     shrink,
-    rule: "each run = 2..12 real nodes (7 topologies, identity configurations a/b, K in {1,2,3,8}), 3..14 serial operations over 2..6 keys with unique values of 0..600 bytes (boundary 511/512/513), one forged oversized PUT frame from a stub in one run of three, faults restricted to unresponsive peers (silence, drops, refused/black-holed dials); non-trivial = a put that reached at least one remote replica followed by a get from another node; distinct = distinct hash of the operation/result log",
+    rule: "each run = 2..12 real nodes (7 topologies, identity configurations a/b, K in {1,2,3,8}), 3..14 operations (serial in three runs of four, overlapping in one) over 2..6 keys with unique values of 0..600 bytes (boundary 511/512/513), one forged oversized PUT frame from a stub in one run of three, faults restricted to unresponsive peers (silence, drops, refused/black-holed dials); non-trivial = a put that reached at least one remote replica followed by a get from another node; distinct = distinct hash of the operation/result log",
     real_components: &["DhtNetworkManager (put, put_with_targets, store_local, get, get_local, request handlers)", "DhtCoreEngine data store", "TransportHandle up to the seam"],
     stubbed_components: &["ant-quic: in-memory network", "one stub peer that sends a forged oversized PUT frame"],
-    assumptions: &["serial regime: one client operation in flight network-wide", "no lying peers (a plain DHT cannot tell a forged value)"],
+    assumptions: &["three runs in four are serial (one client operation in flight network-wide) with the full per-operation oracle; one in four overlaps the operations in time (with seeded yields at the manager's locks) and is judged at quiescence: holders hold a value issued for the key (exactly the accepted one when it is the key's only value), gets return only values issued for the key, no PUT to self, nothing oversized or foreign anywhere", "no lying peers (a plain DHT cannot tell a forged value)"],
 };
 
 fn generate(seed: u64, tier: Tier) -> Value {
@@ -52,6 +52,13 @@ fn generate(seed: u64, tier: Tier) -> Value {
         let at = r.usize_below(ops.len() + 1);
         ops.insert(at, json!({"op": "forged_put", "victim": r.below(n), "key": r.below(keys), "len": *r.pick(&[513u64, 600, 512])}));
     }
+    // one run in four: the operations overlap in time (start offsets), judged at quiescence
+    let concurrent = r.chance(1, 4);
+    if concurrent {
+        ops.retain(|o| o["op"] != "forged_put");
+        let tmo = 1000u64;
+        for o in ops.iter_mut() { o["start_ms"] = json!(r.below(2 * tmo)); }
+    }
     let fault_free = r.chance(1, 3);
     let mut faults = json!({"silence": [], "slow": [], "drops": [], "dial": []});
     if !fault_free {
@@ -60,7 +67,7 @@ fn generate(seed: u64, tier: Tier) -> Value {
         for _ in 0..r.below(3) { faults["dial"].as_array_mut().unwrap().push(json!({"from": r.below(n), "to": r.below(n), "kind": *r.pick(&["refuse", "blackhole"])})); }
     }
     json!({"property": "C03", "seed": seed, "net_seed": r.below(1 << 40), "n": n, "topology": topo, "edges": edges, "ident": if r.chance(2, 3) { "a" } else { "b" },
-           "k": *r.pick(&[1u64, 2, 3, 8, 8]), "timeout_ms": *r.pick(&[500u64, 1000, 3000]), "nodes": nodes, "ops": ops, "faults": faults, "fault_free": fault_free,
+           "k": *r.pick(&[1u64, 2, 3, 8, 8]), "timeout_ms": *r.pick(&[500u64, 1000, 3000]), "nodes": nodes, "ops": ops, "faults": faults, "fault_free": fault_free, "concurrent": concurrent, "yield_rate": if concurrent { *r.pick(&[0u64, 32, 128]) } else { 0 },
            "latency_ms": *r.pick(&[1u64, 5, 20]), "jitter_ms": *r.pick(&[0u64, 3, 30]), "liars": []})
 }
 
@@ -94,7 +101,153 @@ fn now_secs() -> u64 {
     std::time::SystemTime::now().duration_since(std::time::UNIX_EPOCH).map(|d| d.as_secs()).unwrap_or(0)
 }
 
+/// Concurrent regime: operations overlap; everything is judged once the network is quiet.
+fn execute_concurrent(sc: &Value) -> RunReport {
+    use std::sync::{Arc, Mutex};
+    let seed = sc["seed"].as_u64().unwrap_or(0);
+    let rt = sim_runtime(seed);
+    let mut ctx = Ctx::new();
+    rt.block_on(async {
+        let (net, nodes) = match build_world(sc, false).await {
+            Ok(x) => x,
+            Err(e) => { ctx.harness_error = Some(format!("build_world: {e}")); return; }
+        };
+        let n = nodes.len();
+        let tids: Vec<String> = nodes.iter().map(|x| x.tid.clone()).collect();
+        let apps: Vec<String> = nodes.iter().map(|x| x.app_id.clone()).collect();
+        let dir = directory(&tids, &apps);
+        let timeout_ms = sc["timeout_ms"].as_u64().unwrap_or(3000);
+        let b_op = Duration::from_millis(25 * (timeout_ms.min(5000) + timeout_ms) + 5 * timeout_ms + 5000);
+        let silent: BTreeSet<usize> = sc["faults"]["silence"].as_array().map(|a| a.iter().map(|s| s["node"].as_u64().unwrap_or(0) as usize).collect()).unwrap_or_default();
+        verif_hooks::set_yield_points(sc["yield_rate"].as_u64().unwrap_or(0) as u32, seed ^ 0x33);
+        let ops: Vec<Value> = sc["ops"].as_array().cloned().unwrap_or_default();
+        // values issued per key (any size <= 512 may legitimately sit in a store, whether or not the op reported success)
+        let mut issued: BTreeMap<u64, Vec<Vec<u8>>> = BTreeMap::new();
+        for (idx, op) in ops.iter().enumerate() {
+            if matches!(op["op"].as_str(), Some("put") | Some("put_targets") | Some("store_local")) {
+                let len = op["len"].as_u64().unwrap_or(0) as usize;
+                if len <= 512 { issued.entry(op["key"].as_u64().unwrap_or(0)).or_default().push(value_for(seed, idx, len)); }
+            }
+        }
+        type Out = (usize, String, usize, u64, Result<Option<DhtNetworkResult>, String>);
+        let outs: Arc<Mutex<Vec<Out>>> = Arc::new(Mutex::new(Vec::new()));
+        let mut hs = Vec::new();
+        for (idx, op) in ops.iter().enumerate() {
+            let kind = op["op"].as_str().unwrap_or("").to_string();
+            let a = (op["node"].as_u64().unwrap_or(0) as usize) % n;
+            if silent.contains(&a) || kind == "forged_put" { continue; }
+            let kid = op["key"].as_u64().unwrap_or(0);
+            let key = key_bytes(kid);
+            let len = op["len"].as_u64().unwrap_or(0) as usize;
+            let value = value_for(seed, idx, len);
+            let targets: Vec<String> = op["targets"].as_array().map(|t| t.iter().map(|x| tids[(x.as_u64().unwrap_or(0) as usize) % n].clone()).filter(|t| *t != tids[a]).collect()).unwrap_or_default();
+            let start = op["start_ms"].as_u64().unwrap_or(0);
+            let mgr = nodes[a].manager.clone();
+            let outs = outs.clone();
+            ctx.ops += 1;
+            hs.push(tokio::spawn(async move {
+                tokio::time::sleep(Duration::from_millis(start)).await;
+                let r = tokio::time::timeout(b_op, async {
+                    match kind.as_str() {
+                        "put" => mgr.put(key, value.clone()).await.map(Some),
+                        "put_targets" => mgr.put_with_targets(key, value.clone(), &targets).await.map(Some),
+                        "store_local" => mgr.store_local(key, value.clone()).await.map(|_| None),
+                        _ => mgr.get(&key).await.map(Some),
+                    }
+                }).await;
+                let res = match r { Err(_) => Err("DID-NOT-RETURN".to_string()), Ok(Err(e)) => Err(e.to_string()), Ok(Ok(x)) => Ok(x) };
+                outs.lock().unwrap().push((idx, kind, a, kid, res));
+            }));
+        }
+        for h in hs { let _ = h.await; }
+        tokio::time::sleep(Duration::from_millis(2 * timeout_ms + 300)).await;
+        verif_hooks::set_yield_points(0, 0);
+        // ---- stores at quiescence
+        let mut store: Vec<BTreeMap<[u8; 32], Vec<u8>>> = Vec::new();
+        for nd in &nodes {
+            let dht = nd.manager.verif_dht();
+            store.push(dht.read().await.verif_store_entries().await.into_iter().map(|(k, v)| (*k.as_bytes(), v)).collect());
+        }
+        let mut outs = outs.lock().unwrap().clone();
+        outs.sort_by_key(|o| o.0);
+        let accepted_for_key = |kid: u64| -> usize { issued.get(&kid).map(|v| v.len()).unwrap_or(0) };
+        let mut overlapping_puts = false;
+        for (idx, kind, a, kid, res) in &outs {
+            let key = key_bytes(*kid);
+            let len = ops[*idx]["len"].as_u64().unwrap_or(0) as usize;
+            let value = value_for(seed, *idx, len);
+            ev!("#{idx} {kind} node={a} k{kid} len={len} -> {}", match res { Ok(Some(r)) => simnet::result_name(r).to_string(), Ok(None) => "ok".into(), Err(e) => format!("err {}", e.chars().take(50).collect::<String>()) });
+            match (kind.as_str(), res) {
+                (_, Err(e)) if e == "DID-NOT-RETURN" => ctx.violate("C03.op.did_not_return", format!("concurrent:{kind}"), format!("op #{idx} {kind} at node {a} did not return within {b_op:?}")),
+                ("get", Ok(Some(DhtNetworkResult::GetSuccess { value: v, .. }))) => {
+                    let under_key = issued.get(kid).map(|x| x.contains(v)).unwrap_or(false);
+                    if !under_key {
+                        let other = issued.iter().any(|(k2, x)| k2 != kid && x.contains(v));
+                        ctx.violate(if other { "C03.get.value_of_another_key" } else { "C03.get.value_never_stored" }, "concurrent", format!("op #{idx}: get(k{kid}) at node {a} returned {} bytes that no put issued under that key", v.len()));
+                    }
+                }
+                ("get", _) => {}
+                (_, Err(_)) => {} // an error is not an acceptance
+                (_, Ok(r)) => {
+                    if len > 512 { ctx.violate("C03.size.oversized_value_accepted", format!("concurrent:{kind}"), format!("op #{idx}: a {len}-byte value was accepted")); continue; }
+                    if accepted_for_key(*kid) > 1 { overlapping_puts = true; }
+                    // holders must hold a value issued for this key; exactly this value if it is the only one ever issued for the key
+                    let mut holders = vec![*a];
+                    if let Some(DhtNetworkResult::PutSuccess { peer_outcomes, .. }) = r {
+                        for o in peer_outcomes {
+                            match dir.ids.get(&o.peer_id) {
+                                Some(x) if x == a => ctx.violate("C03.put.local_node_listed_as_network_target", format!("concurrent:{kind}"), format!("op #{idx}: peer_outcomes names the putting node itself")),
+                                Some(x) if o.success => holders.push(*x),
+                                Some(_) => {}
+                                None => ctx.violate("C03.put.unknown_peer_in_outcomes", format!("concurrent:{kind}"), format!("op #{idx}: outcome for unknown peer {}", o.peer_id)),
+                            }
+                        }
+                    }
+                    for h in holders {
+                        let held = store[h].get(&key);
+                        let ok = match held {
+                            Some(v) if accepted_for_key(*kid) <= 1 => *v == value,
+                            Some(v) => issued.get(kid).map(|x| x.contains(v)).unwrap_or(false),
+                            None => false,
+                        };
+                        if !ok {
+                            ctx.violate(if h == *a { "C03.put.local_node_does_not_hold_value" } else { "C03.put.reported_replica_does_not_hold_value" }, format!("concurrent:{kind}"), format!("op #{idx}: at quiescence node {h} holds {:?} bytes for k{kid}; the accepted value has {len} bytes ({} values were issued for this key)", held.map(|v| v.len()), accepted_for_key(*kid)));
+                        }
+                    }
+                }
+            }
+        }
+        // ---- PUT frames: never to the sender itself, never carrying more than 512 bytes
+        for f in net.frames() {
+            if let Some(m) = &f.dht {
+                if let (DhtMessageType::Request, DhtNetworkOperation::Put { value, .. }) = (&m.message_type, &m.payload) {
+                    if f.from == f.to { ctx.violate("C03.put.request_sent_to_self", "concurrent", format!("node {} sent a PUT frame to itself", f.from)); }
+                    if value.len() > 512 { ctx.violate("C03.size.oversized_value_sent", "concurrent", format!("a {}-byte value travelled in a PUT frame", value.len())); }
+                }
+            }
+        }
+        // ---- nothing foreign or oversized in any store
+        for (x, st) in store.iter().enumerate() {
+            for (k, v) in st {
+                if v.len() > 512 { ctx.violate("C03.size.store_holds_oversized_value", "concurrent", format!("node {x} holds a {}-byte value", v.len())); }
+                let kid = (0..8u64).find(|i| key_bytes(*i) == *k);
+                if !kid.and_then(|i| issued.get(&i)).map(|vals| vals.contains(v)).unwrap_or(false) {
+                    ctx.violate("C03.store.holds_pair_no_put_issued", "concurrent", format!("node {x} holds ({:?}, {} bytes) which no put issued", kid, v.len()));
+                }
+            }
+        }
+        ctx.probe("concurrent_regime_runs");
+        if overlapping_puts { ctx.probe("concurrent_puts_on_one_key"); ctx.nontrivial = true; }
+        ctx.sim_ms += net.now_ms();
+        for (k, v) in net.fired() { for _ in 0..v { ctx.fault(&k); } }
+        net.shutdown();
+    });
+    drop(rt);
+    ctx.finish()
+}
+
 fn execute(sc: &Value) -> RunReport {
+    if sc["concurrent"].as_bool().unwrap_or(false) { return execute_concurrent(sc); }
     let seed = sc["seed"].as_u64().unwrap_or(0);
     let rt = sim_runtime(seed);
     let mut ctx = Ctx::new();
